@@ -160,8 +160,8 @@ DECL___verify_claims(contract_C04___verify_claims);
 /* ---- __verify_config_post: policy decision after parsing and callback ---- */
 #define CFG_OK(config) (__CPROVER_is_fresh(config, sizeof(*config)) && \
 	((config)->key == NULL || __CPROVER_is_fresh((config)->key, sizeof(*(config)->key))))
-#define VCP_OBS(jwt, config, sig_len) (OBS(cfg_alg, (config)->alg) && OBS(key_present, (config)->key != NULL) && \
-	OBS(key_alg, (config)->key ? (config)->key->alg : -1) && OBS(hdr_alg, (jwt)->alg) && OBS(sig_len, sig_len))
+#define VCP_OBS(jwt, config, SL) (OBS(cfg_alg, (config)->alg) && OBS(key_present, (config)->key != NULL) && \
+	OBS(key_alg, (config)->key ? (config)->key->alg : -1) && OBS(hdr_alg, (jwt)->alg) && OBS(sig_len, SL))
 
 #define DECL___verify_config_post(NAME, CLAUSES) \
 int NAME(jwt_t *jwt, const jwt_config_t *config, unsigned int sig_len) \
@@ -177,6 +177,7 @@ __CPROVER_requires(C04_OBS(jwt) && VCP_OBS(jwt, config, sig_len)) \
 __CPROVER_assigns(jwt->error, SPEC_ERRMSG_FRAME(jwt), g_strcmp_b, g_strcmp_ret, g_strcmp_hits) \
 __CPROVER_ensures(__CPROVER_return_value == 0 || __CPROVER_return_value == 1) \
 __CPROVER_ensures(SPEC_ERRMSG_TERMINATED(jwt)) \
+SPEC_ERR_MONOTONE(jwt) \
 CLAUSES
 
 /* C02: a signed token is let through to signature verification only with a
@@ -205,6 +206,57 @@ DECL___verify_config_post(contract_C04___verify_config_post, C04_VCP_CLAUSES);
 DECL___verify_config_post(contract_C14___verify_config_post, C14_VCP_CLAUSES);
 /* the conjunction, used by callers */
 DECL___verify_config_post(contract_all___verify_config_post, C02_VCP_CLAUSES C03_VCP_CLAUSES C04_VCP_CLAUSES C14_VCP_CLAUSES);
+
+/* ================= jwt_verify_complete: policy, then signature =========== */
+#define VC_SIGNED(token, payload_len) ((token)[(size_t)(payload_len) + 1] != 0)
+#define VC_ACCEPTED(jwt) (__CPROVER_old((jwt)->error) == 0 && (jwt)->error == 0)
+#define DECL_jwt_verify_complete(NAME, CLAUSES) \
+jwt_t *NAME(jwt_t *jwt, const jwt_config_t *config, const char *token, unsigned int payload_len) \
+__CPROVER_requires(__CPROVER_is_fresh(jwt, sizeof(*jwt))) \
+REQ_CLAIMS_STATE(jwt) \
+__CPROVER_requires(g_strcmp_hits == 0) \
+__CPROVER_requires(CFG_OK(config)) \
+__CPROVER_requires(SPEC_ALG_IN_ENUM(jwt->alg) && SPEC_ALG_IN_ENUM(config->alg) && \
+	(config->key == NULL || (SPEC_ALG_IN_ENUM(config->key->alg) && config->key->bits <= 0x7fffffff))) \
+__CPROVER_requires(SPEC_ERRMSG_TERMINATED(jwt)) \
+__CPROVER_requires(token != NULL && payload_len < 0x7ffffff0 && __CPROVER_r_ok(token, (size_t)payload_len + 2)) \
+__CPROVER_requires(OPS_TABLE_OBEYS(all)) \
+__CPROVER_requires(C04_OBS(jwt) && VCP_OBS(jwt, config, VC_SIGNED(token, payload_len))) \
+__CPROVER_assigns(jwt->error, SPEC_ERRMSG_FRAME(jwt), jwt->key, g_strcmp_b, g_strcmp_ret, g_strcmp_hits, OPS_GHOST_ASSIGNS) \
+__CPROVER_ensures(__CPROVER_return_value == jwt) \
+__CPROVER_ensures(SPEC_ERRMSG_TERMINATED(jwt)) \
+SPEC_ERR_MONOTONE(jwt) \
+CLAUSES
+/* C01: a signed token is accepted only if a primitive vouched for the
+ * configured key, the header's algorithm, and exactly token[0 .. payload_len) */
+#define C01_VC_CLAUSES \
+__CPROVER_ensures((VC_ACCEPTED(jwt) && VC_SIGNED(token, payload_len)) ==> ( \
+	config->key != NULL && jwt->key == config->key && SPEC_IS_SIGNING(jwt->alg) && \
+	(SPEC_IS_HS(jwt->alg) ? C01_MAC_EXACTLY(jwt, token, payload_len) : \
+	 (g_ver_valid == 1 && OPS_KEYMAT_OF(jwt, g_ver_keymat) && g_ver_data == (const void *)token && \
+	  g_ver_len == payload_len && g_ver_hash == SPEC_HASH_BITS(jwt->alg) && g_ver_pss == SPEC_IS_PS(jwt->alg) && \
+	  g_ver_family == (int)SPEC_KTY_FOR(jwt->alg)))))
+#define C02_VC_CLAUSES \
+__CPROVER_ensures((VC_ACCEPTED(jwt) && VC_SIGNED(token, payload_len)) ==> ( \
+	config->key != NULL && jwt->alg != JWT_ALG_NONE && jwt->alg == SPEC_PINNED_ALG(config->alg, 1, config->key->alg) && \
+	jwt->key->kty == SPEC_KTY_FOR(jwt->alg)))
+#define C03_VC_CLAUSES \
+__CPROVER_ensures((VC_ACCEPTED(jwt) && !VC_SIGNED(token, payload_len)) ==> \
+	(config->key == NULL && config->alg == JWT_ALG_NONE && jwt->alg == JWT_ALG_NONE)) \
+__CPROVER_ensures((VC_SIGNED(token, payload_len) && (jwt->alg == JWT_ALG_NONE || config->key == NULL)) ==> jwt->error != 0)
+#define C04_VC_CLAUSES \
+__CPROVER_ensures(C04_TRACKED_FAILS(jwt) ==> jwt->error != 0)
+#define C09_VC_CLAUSES \
+__CPROVER_ensures((VC_ACCEPTED(jwt) && VC_SIGNED(token, payload_len)) ==> C09_FLOOR_OK(jwt))
+#define C14_VC_CLAUSES \
+__CPROVER_ensures(jwt->error != 0 ==> (jwt->error_msg[0] != 0 || __CPROVER_old(jwt->error) != 0))
+DECL_jwt_verify_complete(contract_C01_jwt_verify_complete, C01_VC_CLAUSES);
+DECL_jwt_verify_complete(contract_C02_jwt_verify_complete, C02_VC_CLAUSES);
+DECL_jwt_verify_complete(contract_C03_jwt_verify_complete, C03_VC_CLAUSES);
+DECL_jwt_verify_complete(contract_C04_jwt_verify_complete, C04_VC_CLAUSES);
+DECL_jwt_verify_complete(contract_C09_jwt_verify_complete, C09_VC_CLAUSES);
+DECL_jwt_verify_complete(contract_C14_jwt_verify_complete, C14_VC_CLAUSES);
+DECL_jwt_verify_complete(contract_all_jwt_verify_complete, C01_VC_CLAUSES C02_VC_CLAUSES C03_VC_CLAUSES C04_VC_CLAUSES C09_VC_CLAUSES C14_VC_CLAUSES);
 
 /* ======================= token parsing ================================== */
 /* a document as json_loads returns it: a fresh object or array with one
